@@ -26,7 +26,8 @@ VARIABLES las,        \* "init" | "serving" | "returned"
           accErr,     \* first error returned by a goroutine of the group ("" = none)
           cons,       \* "select" | "exit"
           sess,       \* connection -> "none" | "hs" | "est" | "listen" | "finish" | "done"
-          outcome,    \* connection -> "est" | "failed" | "err" | "stall"   (how its handshake ends;
+          outcome,    \* connection -> "est" | "drop" | "failed" | "err" | "stall"   (how its handshake ends;
+                      \*   "drop" = it is established and the client later goes away without finishing;
                       \*   a stalled client never answers: only the cancelled serve context ends it)
           closer,     \* "idle" | "c1" | "c2" | "done"
           closeAt,    \* Close starts after this many steps at the earliest
@@ -108,8 +109,8 @@ SessHandshake(c) ==
   /\ Alive /\ sess[c] = "hs"
   /\ (outcome[c] = "stall" => ctxDone)
   /\ LET o == IF ctxDone THEN "err" ELSE outcome[c] IN
-     /\ sess' = [sess EXCEPT ![c] = IF o = "est" THEN "est" ELSE "done"]
-     /\ Note([Ev("hs") EXCEPT !.s = c, !.res = o])
+     /\ sess' = [sess EXCEPT ![c] = IF o \in {"est", "drop"} THEN "est" ELSE "done"]
+     /\ Note([Ev("hs") EXCEPT !.s = c, !.res = IF o = "drop" THEN "est" ELSE o])
   /\ Step("sess:" \o c, "Handshake")
   /\ UNCHANGED <<las, ctxDone, lisOpen, qClosed, queue, backlog, acc, accErr, cons, outcome, closer, closeAt, panicked>>
 
@@ -123,15 +124,18 @@ SessCbEstablished(c) ==
 SessListenEnds(c, why) ==
   /\ Alive /\ sess[c] = "listen"
   /\ (why = "ctx" => ctxDone)
-  /\ sess' = [sess EXCEPT ![c] = "finish"]
-  /\ Step("sess:" \o c, "ListenEnds:" \o why) /\ UNCHANGED obs
+  /\ IF why = "client" /\ outcome[c] = "drop"
+     THEN sess' = [sess EXCEPT ![c] = "finishgone"] /\ Note([Ev("gone") EXCEPT !.s = c])   \* the connection is dropped
+     ELSE sess' = [sess EXCEPT ![c] = "finish"] /\ UNCHANGED obs
+  /\ Step("sess:" \o c, "ListenEnds:" \o why)
   /\ UNCHANGED <<las, ctxDone, lisOpen, qClosed, queue, backlog, acc, accErr, cons, outcome, closer, closeAt, panicked>>
 
-(* deferred: FinishSession (the client observes finished), then the Finished callback *)
+(* deferred: FinishSession (the client observes finished, unless it is gone), then the Finished callback *)
 SessFinish(c) ==
-  /\ Alive /\ sess[c] = "finish"
+  /\ Alive /\ sess[c] \in {"finish", "finishgone"}
   /\ sess' = [sess EXCEPT ![c] = "done"]
-  /\ obs' = obs \o <<[Ev("finished") EXCEPT !.s = c], [Ev("cbFin") EXCEPT !.s = c]>>
+  /\ obs' = IF sess[c] = "finish" THEN obs \o <<[Ev("finished") EXCEPT !.s = c], [Ev("cbFin") EXCEPT !.s = c]>>
+                                  ELSE Append(obs, [Ev("cbFin") EXCEPT !.s = c])
   /\ Step("sess:" \o c, "Finish")
   /\ UNCHANGED <<las, ctxDone, lisOpen, qClosed, queue, backlog, acc, accErr, cons, outcome, closer, closeAt, panicked>>
 
@@ -174,7 +178,7 @@ Init == /\ las = "init" /\ ctxDone = FALSE /\ lisOpen = [l \in Lis |-> TRUE] /\ 
         /\ queue = <<>> /\ backlog = [l \in Lis |-> <<>>]
         /\ acc = [l \in Lis |-> [pc |-> "accept", holds |-> ""]] /\ accErr = ""
         /\ cons = "select" /\ sess = [c \in Conns |-> "none"]
-        /\ outcome \in [Conns -> {"est", "failed", "err", "stall"}]
+        /\ outcome \in [Conns -> {"est", "drop", "failed", "err", "stall"}]
         /\ closer = "idle" /\ closeAt \in CloseAfter /\ panicked = FALSE /\ hist = <<>> /\ obs = <<>>
 
 Next == /\ ~HasEnd(obs)
